@@ -69,9 +69,12 @@ def body_roundtrip(case, ctx):
     X = H.klein_to_model(K, src)
     if src == "projective":
         X = X * case["scale"]
-    P = hyperbolic.Point(X.copy(), model=_alias(src, case["alias"]))
+    Xin = X.copy()                 # the caller's array: handed over as it is
+    P = hyperbolic.Point(Xin, model=_alias(src, case["alias"]))
     ctx.check(P.shape == shape, "composite shape of constructed point", got=P.shape,
               want=shape)
+    ctx.check(np.array_equal(Xin, X), "constructing a point leaves the caller's coordinate "
+              "array untouched", src=src)
     rad = np.sqrt(np.sum(K * K, axis=-1))
     hscale = float(np.max(1.0 / np.sqrt(1 - rad ** 2))) if K.size else 1.0
     ctx.label("src=" + src, "n=%d" % n, "rank=%d" % len(shape))
@@ -115,6 +118,11 @@ def body_roundtrip(case, ctx):
         else:
             tol = 1e-8 * (hscale if src == "halfspace" else 1.0)
             ctx.close("back to %s" % src, back, X, rtol=tol, atol=tol)
+    ctx.check(np.array_equal(Xin, X), "reading coordinates leaves the caller's coordinate "
+              "array untouched", src=src)
+    P2 = hyperbolic.Point(Xin, model=src)      # the same array, used again
+    ctx.close("a second point built from the same array is the same point",
+              P2.coords("klein"), K, rtol=1e-9, atol=1e-10)
     # get_point is documented as an equivalent constructor
     if src in ("klein", "poincare", "halfspace"):
         G = hyperbolic.get_point(X.copy(), model=src)
@@ -216,6 +224,47 @@ def body_metric(case, ctx):
 
 
 @st.composite
+def broadcast_case(draw):
+    n = draw(st.integers(1, 4))
+    kind = draw(st.sampled_from(["single-vs-array", "array-vs-single", "col-vs-row",
+                                 "size1-axis"]))
+    if kind == "single-vs-array":
+        sa, sb = [], [draw(st.integers(1, 4))]
+    elif kind == "array-vs-single":
+        sa, sb = [draw(st.integers(1, 4))], []
+    elif kind == "col-vs-row":
+        sa, sb = [draw(st.integers(1, 3)), 1], [1, draw(st.integers(1, 4))]
+    else:
+        k = draw(st.integers(2, 3))
+        sa, sb = [1, k], [draw(st.integers(2, 3)), k]
+    return dict(n=n, sa=sa, sb=sb, kind=kind,
+                a=draw(gen.klein_points(n, gen.prod(sa))), b=draw(gen.klein_points(n, gen.prod(sb))),
+                srcs=[draw(st.sampled_from(MODELS)), draw(st.sampled_from(MODELS))])
+
+
+def body_broadcast(case, ctx):
+    """distances between composites whose shapes broadcast (one point against many, a column
+    against a row): entry by entry the closed form, in both argument orders"""
+    n, sa, sb = case["n"], tuple(case["sa"]), tuple(case["sb"])
+    KA = np.array(case["a"], dtype=float).reshape(sa + (n,))
+    KB = np.array(case["b"], dtype=float).reshape(sb + (n,))
+    A = _build(KA, case["srcs"][0])
+    B = _build(KB, case["srcs"][1])
+    ctx.label("kind=" + case["kind"], "n=%d" % n, "not-origin", "n>=2-or-composite")
+    want_shape = np.broadcast_shapes(sa, sb)
+    KAb = np.broadcast_to(KA, want_shape + (n,))
+    KBb = np.broadcast_to(KB, want_shape + (n,))
+    d_true = H.dist_klein(KAb, KBb)
+    tol = dist_tol(KAb, KBb, d_true)
+    for (X, Y, tag) in ((A, B, "a.distance(b)"), (B, A, "b.distance(a)")):
+        d = np.array(X.distance(Y))
+        ctx.check(d.shape == want_shape, tag + ": broadcast shape", got=d.shape,
+                  want=want_shape)
+        ctx.small(tag + ": entry by entry the closed form", (d - d_true) / tol, 1.0,
+                  d=d, d_true=d_true)
+
+
+@st.composite
 def triple_case(draw, max_n=5):
     n = draw(st.integers(1, max_n))
     shape = draw(gen.shapes(max_rank=1))
@@ -298,6 +347,8 @@ LAWS = [
         thorough=2500, shards=(2, 8)),
     Law("metric_agrees_in_every_model", pair_case(), body_metric, nt_cloud, quick=250,
         thorough=2500, shards=(2, 8)),
+    Law("distance_broadcasts", broadcast_case(), body_broadcast, nt_cloud, quick=200,
+        thorough=2000, shards=(1, 4)),
     Law("metric_laws_triangle", triple_case(), body_triangle, nt_cloud, quick=200,
         thorough=2000, shards=(1, 4)),
     Law("ideal_roundtrip", ideal_case(), body_ideal, lambda l: True, quick=150,
